@@ -27,6 +27,7 @@ struct Shared {
     std::vector<std::unique_ptr<SourceHolder>> sources;     // index = doc * 2 + (wrapper ? 1 : 0)
     std::string err;
     bool build(const Json& plan) {
+        preWrapToggle() = plan.boolean("wrapper_prewrap");
         owner.reset(new XEnv(&mm, true));
         for (auto& kv : plan.at("resources").o) owner->fs.put(kv.first, kv.second.s);
         for (auto& s : plan.at("sheets").a) {
@@ -127,7 +128,7 @@ struct C07 : public Driver {
         // one refused allocation in the shared objects' manager during the concurrent phase (fully built wrappers only: a lazily built one
         // that could not allocate a node is an inconsistent tree, and walking it further proves nothing)
         if (gs.chance(1, 4) && run % 3 != 1) p["ownerFailAt"] = (long long)(1 + gs.below(8));
-        p["tasks"] = tasks; p["wrapper_lazy"] = run % 3 == 1;     // the Xerces wrapper created with (threadSafe, !buildWrapper): documented as thread-safe too
+        p["tasks"] = tasks; p["wrapper_lazy"] = run % 3 == 1; p["wrapper_prewrap"] = run % 4 == 2;     // the Xerces wrapper created with (threadSafe, !buildWrapper): documented as thread-safe too
         Json sc = Json::object(); unsigned k = (unsigned)gs.below(10);
         if (k == 0) sc["strategy"] = "sequential";
         else if (k < 5) { sc["strategy"] = "random"; static const std::vector<int> dens = { 4, 32, 256, 2048 }; sc["den"] = gs.pick(dens); }
